@@ -18,7 +18,7 @@ func init() {
 	sp := &ActionSpec{
 		ID: "C16", Module: "Cursor",
 		MCCfgs: []string{"CursorMC.cfg"}, GenCfgs: []string{"CursorGen.cfg", "CursorGen_live.cfg"},
-		NSim: [2]int{400, 6000}, NRand: [2]int{60, 600},
+		NSim: [2]int{1500, 20000}, NRand: [2]int{60, 600},
 		Setup: cursorSetup, Exec: cursorExec, Random: cursorRandom, Sig: cursorSig,
 		Assume: []string{"the variables after an out-of-range FETCH are not compared (the manual says NULL, the code leaves them; the property statement does not fix it)"},
 	}
